@@ -169,6 +169,15 @@ def _cases(tier, kind):
                         if nth == 2 and (len(p[0]) + len(p[1]) > 4):
                             continue
                         yield {"kind": kind, "cfg": cfg, "docs": list(p), "eps": eps, "iters": 3 if nth == 1 else 1, "n_threads": nth}
+        # longer documents (more co-occurrence events per corpus) for the plainest window: enough mass per column for a
+        # cell to fall below epsilon while its row and its column keep other cells - the sparse look-up of thresholded
+        # cells in the M-step is only exercised then
+        long_docs = [d for d in sigma("abc", 4) if len(d) == 4]
+        plain = [c for c in CFGS if c["radii"] == [1] and c["kernel"] == "flat"]
+        for cfg in plain:
+            for eps in ((0.3,) if tier == "quick" else (0.1, 0.3)):
+                for p in itertools.product(long_docs, repeat=2):
+                    yield {"kind": kind, "cfg": cfg, "docs": list(p), "eps": eps, "iters": 2, "n_threads": 1}
     elif kind == "timed":
         docs = sigma("ab", 3)
         for cfg in [c for c in CFGS if c["kernel"] != "harmonic"] + MIX_CFGS[:1]:
